@@ -1,14 +1,23 @@
 import FitModel.Encode
 import FitModel.Items
 import FitModel.Gen.Profile
+import FitProofs.TypedEncode
+import FitProofs.DecodeEncode
+import FitProofs.Chain
+import FitProps.C01
+import FitProps.C10
 /-!
   C07 — anything Decode accepts can be re-encoded, and one round trip is a fixpoint.
 
-  Partial.  Proved: the invariant behind the repaired defect D6 (a decoded File's container always
-  matches its file type, so `Encode` never dereferences a nil container), and the known finding
-  D13 as a counterexample theorem (a stream that Decode accepts and Encode rejects).  The full
-  statement (`reencode`) is checked on every run over all accepted inputs by the correspondence
-  and the generation-1/2/3 oracle; its Lean proof is not assembled.
+  Proved: **`Encode` never panics on a File that `Decode` returned** (`reencode_never_panics`): every
+  decoded File is well typed — every message of a known type, every struct field holding a value of
+  its Go type, every container field holding messages of its element type, the container the one the
+  file type selects (`decoded_file_typed`; FitProofs/Typed*.lean) — and `Encode` cannot panic on a
+  well-typed File (`encode_no_panic`).  That Encode can *fail* on such a File is the known finding
+  D13, a counterexample theorem here.  The remaining clauses (the output passes CheckIntegrity and
+  decodes to the same content; the second round trip is a fixpoint) are checked on every run over all
+  accepted inputs by the correspondence and the generation-1/2/3 oracle; C05/C06 prove them for Files
+  in `fileRTB`.
 -/
 namespace Fit.Props.C07
 open Fit
@@ -85,5 +94,64 @@ def d13Witness : Bool :=
      | none => false)
 
 theorem reencode_counterexample_utf8 : d13Witness = true := by decide +kernel
+
+/-! ### Encode never panics on a decoded File -/
+
+/-- on the regenerated profile, every destination of `expandComponents` is an unsigned scalar struct
+    field, and file_id has fields -/
+theorem gen_xok : xokB Gen.profile = true := by decide +kernel
+theorem gen_fid_layout : fidLayoutB Gen.profile = true := by decide +kernel
+
+/-- **Every File a successful `Decode` returns is well typed and has its container attached.** -/
+theorem decoded_file_typed (P : Profile) (hwf : ProfileWF P = true) (hx : xokB P = true) (hfl : fidLayoutB P = true)
+    (o : Opts) (g : Globals) (r : Reader) (hs : (decode P o .full g r).1.success) (F : FileSt)
+    (hF : (decode P o .full g r).1.st.file = some F) : FileTyped P F ∧ F.cidx.isSome = true := by
+  rw [decode_out_eq_spec] at hs hF
+  have hs' := spec_success_of P o .full g r.data r.stop hs
+  have ht := success_typed P hwf hx hfl g { rest := r.data, stop := r.stop, taken := 0 } hs'
+  unfold decodeSpec at hF
+  simp only at hF
+  cases hf0 : (runSpec (decodeProg P .full g) { rest := r.data, stop := r.stop, taken := 0 }).1.st.file with
+  | none =>
+    unfold finalize at hF
+    split at hF
+    · rw [hf0] at hF; cases hF
+    · simp only [hf0, Option.map_none] at hF; cases hF
+  | some F0 =>
+    obtain ⟨F', h1, h2, _⟩ := finalize_content o _ F0 hf0
+    rw [h1] at hF
+    cases hF
+    obtain ⟨_, _, e3, e4, e5, _, _, e8, e9⟩ := h2
+    obtain ⟨t1, t2⟩ := ht F0 hf0
+    exact ⟨t1.congr e3 e4 e5 e8 e9, by rw [e8]; exact t2⟩
+
+/-- **`Encode` of the result of a successful `Decode` never panics**, for any input bytes, read
+    schedule, option set, package state and byte order. -/
+theorem reencode_never_panics (P : Profile) (hwf : ProfileWF P = true) (hx : xokB P = true) (hfl : fidLayoutB P = true)
+    (o : Opts) (g : Globals) (r : Reader) (arch : Endian) (hs : (decode P o .full g r).1.success) (F : FileSt)
+    (hF : (decode P o .full g r).1.st.file = some F) : encode P arch F ≠ .panic := by
+  obtain ⟨h1, h2⟩ := decoded_file_typed P hwf hx hfl o g r hs F hF
+  exact encode_no_panic P hwf arch F h1 h2
+
+/-- the instance for the tree under check -/
+theorem reencode_never_panics_gen (o : Opts) (g : Globals) (r : Reader) (arch : Endian)
+    (hs : (decode Gen.profile o .full g r).1.success) (F : FileSt)
+    (hF : (decode Gen.profile o .full g r).1.st.file = some F) : encode Gen.profile arch F ≠ .panic :=
+  reencode_never_panics Gen.profile C01.gen_wf gen_xok gen_fid_layout o g r arch hs F hF
+
+set_option maxRecDepth 100000 in
+/-- the premises are satisfiable: the 25-byte file of C10, read through any reader that delivers
+    its bytes and then EOF, decodes successfully to a File, and `Encode` of that File — in either
+    byte order — does not panic -/
+example (r : Reader) (hd : r.data = C10.minFile) (hstop : r.stop = .eof) (arch : Endian) :
+    ∃ F, (decode Gen.profile {} .full {} r).1.st.file = some F ∧ encode Gen.profile arch F ≠ .panic := by
+  have hspec : (decodeSpec Gen.profile {} .full {} C10.minFile .eof).1.success ∧
+      (decodeSpec Gen.profile {} .full {} C10.minFile .eof).1.st.file.isSome = true := by decide +kernel
+  have hs : (decode Gen.profile {} .full {} r).1.success := by
+    rw [decode_out_eq_spec, hd, hstop]; exact hspec.1
+  have hf : (decode Gen.profile {} .full {} r).1.st.file.isSome = true := by
+    rw [decode_out_eq_spec, hd, hstop]; exact hspec.2
+  obtain ⟨F, hF⟩ := Option.isSome_iff_exists.mp hf
+  exact ⟨F, hF, reencode_never_panics_gen {} {} r arch hs F hF⟩
 
 end Fit.Props.C07
